@@ -249,6 +249,9 @@ func mOnceDo(x *Exec, cfg *Config, f *Frame, args []Val, pos token.Pos) (Val, []
 	st := cfg.st
 	d0 := Select(x.onceDoneArr(st), once)
 	others := x.d.Fresh("once-done-by-others", SBool)
+	if x.c != nil && x.c.Options["atomics-sequential"] == "true" {
+		others = False // sequential use of the object (assumption listed by atomicHavoc)
+	}
 	d1 := Or(d0, others)
 	x.interfere(cfg)
 	var clo *CloV
@@ -307,7 +310,11 @@ func mOnceDo(x *Exec, cfg *Config, f *Frame, args []Val, pos token.Pos) (Val, []
 	}
 	t := fv.T
 	x.oblige(cfg, "nil-func-call", "once body", Neq(t, IntLit(0)), nil, pos)
-	x.traceCall(cfg, target{unknown: &t}, nil)
+	var osig *types.Signature
+	if ci, ok := f.block.Instrs[f.idx].(ssa.CallInstruction); ok && len(ci.Common().Args) > 1 {
+		osig = sigOfType(ci.Common().Args[1].Type())
+	}
+	x.traceCall(cfg, target{unknown: &t, sig: osig}, nil)
 	setDone(cfg)
 	return TupV{}, []*Config{skip}
 }
@@ -359,6 +366,12 @@ func (x *Exec) atomicStableTerm(cfg *Config) (Term, bool) {
 
 func (x *Exec) atomicHavoc(cfg *Config) {
 	st := cfg.st
+	if x.c != nil && x.c.Options["atomics-sequential"] == "true" {
+		// sequential use (stated by the contract, listed as an assumption):
+		// no other goroutine touches the atomics during this call
+		x.usedTrusted["ASSUMED in "+fullKey(x.fn)+": atomic values are not changed by other goroutines during the call (sequential use of the object)"] = true
+		return
+	}
 	stable, _ := x.atomicStableTerm(cfg)
 	if stable.S == "true" {
 		// the mutex that keeps the atomics stable is held on this path: no
